@@ -481,36 +481,50 @@ Qed.
 (* ------------------------------------------------------------------------------------------ *)
 (* harness truth *)
 
-Lemma raw_of_harness_runs : forall runs_body compiles body_ok t, runs_body t = true ->
-  raw_of_harness runs_body compiles body_ok t = raw_truth compiles body_ok t.
-Proof. intros rb compiles body_ok t H. unfold raw_of_harness, raw_truth. rewrite H. cbn [negb orb]. reflexivity. Qed.
-
-Lemma raw_complement : forall rb compiles body_ok t,
-  ~ Known_C16_body_not_executed rb compiles body_ok t ->
-  raw_of_harness rb compiles body_ok t = raw_truth compiles body_ok t.
+Lemma forallb_all_eq : forall (b : test -> bool) t l,
+  (forall u, In u l -> u = t) -> forallb b l = match l with [] => true | _ :: _ => b t end.
 Proof.
-  intros rb compiles body_ok t H. unfold raw_of_harness, raw_truth, Known_C16_body_not_executed in *.
-  destruct (rb t) eqn:Er; cbn [negb orb]; [reflexivity|].
+  intros b t l. induction l as [|u l IH]; intro H; [reflexivity|].
+  cbn [forallb]. rewrite (H u (or_introl eq_refl)). rewrite IH by (intros v Hv; apply H; right; exact Hv).
+  destruct l; destruct (b t); reflexivity.
+Qed.
+
+Lemma raw_own_body : forall gen compiles body_ok t,
+  harness_executes (gen t) = [t] -> raw_of_harness gen compiles body_ok t = raw_truth compiles body_ok t.
+Proof.
+  intros gen compiles body_ok t H. unfold raw_of_harness, raw_truth. rewrite H. cbn [forallb]. rewrite andb_true_r. reflexivity.
+Qed.
+
+Lemma raw_complement : forall gen compiles body_ok t,
+  isolated gen t -> ~ Known_C16_body_not_executed gen compiles body_ok t ->
+  raw_of_harness gen compiles body_ok t = raw_truth compiles body_ok t.
+Proof.
+  intros gen compiles body_ok t Hi H. unfold raw_of_harness, raw_truth, Known_C16_body_not_executed in *.
+  rewrite (forallb_all_eq body_ok t _ Hi).
+  destruct (harness_executes (gen t)) eqn:E; [|reflexivity].
   destruct (compiles t) eqn:Ec; cbn [andb]; [|reflexivity].
   destruct (body_ok t) eqn:Eb; [reflexivity|]. exfalso. apply H. repeat split; assumption.
 Qed.
 
-Lemma known_body_not_executedb_spec : forall rb compiles body_ok t,
-  known_body_not_executedb rb compiles body_ok t = true <-> Known_C16_body_not_executed rb compiles body_ok t.
+Lemma executes_nothing_spec : forall gen t, executes_nothing gen t = true <-> harness_executes (gen t) = [].
+Proof. intros gen t. unfold executes_nothing. destruct (harness_executes (gen t)); split; intro H; try reflexivity; discriminate. Qed.
+
+Lemma known_body_not_executedb_spec : forall gen compiles body_ok t,
+  known_body_not_executedb gen compiles body_ok t = true <-> Known_C16_body_not_executed gen compiles body_ok t.
 Proof.
   intros. unfold known_body_not_executedb, Known_C16_body_not_executed.
-  rewrite !andb_true_iff, !negb_true_iff. tauto.
+  rewrite !andb_true_iff, negb_true_iff, executes_nothing_spec. tauto.
 Qed.
 
 (* every member of the class that is not skipped IS misreported (the class is not too wide) *)
-Lemma known_class_misreported : forall rb compiles body_ok t,
-  Known_C16_body_not_executed rb compiles body_ok t -> find_skip (t_markers t) = None ->
-  verdict (t_markers t) (raw_of_harness rb compiles body_ok t) <>
+Lemma known_class_misreported : forall gen compiles body_ok t,
+  Known_C16_body_not_executed gen compiles body_ok t -> find_skip (t_markers t) = None ->
+  verdict (t_markers t) (raw_of_harness gen compiles body_ok t) <>
   verdict (t_markers t) (raw_truth compiles body_ok t) /\
-  is_bad (verdict (t_markers t) (raw_of_harness rb compiles body_ok t)) =
+  is_bad (verdict (t_markers t) (raw_of_harness gen compiles body_ok t)) =
   negb (is_bad (verdict (t_markers t) (raw_truth compiles body_ok t))).
 Proof.
-  intros rb compiles body_ok t [H1 [H2 H3]] Hs. unfold raw_of_harness, raw_truth, verdict.
+  intros gen compiles body_ok t [H1 [H2 H3]] Hs. unfold raw_of_harness, raw_truth, verdict.
   rewrite H1, H2, H3, Hs. cbn. destruct (find_xfail (t_markers t)); split; try discriminate; reflexivity.
 Qed.
 
@@ -519,6 +533,27 @@ Lemma harness_runs_body_spec : forall t,
 Proof.
   intro t. unfold harness_runs_body. destruct (t_params t); [|split; [discriminate | intros [H _]; discriminate]].
   rewrite negb_true_iff. split; [intro H; split; [reflexivity | exact H] | intros [_ H]; exact H].
+Qed.
+
+Lemma gen_current_executes : forall t,
+  harness_executes (gen_current t) = if harness_runs_body t then [t] else [].
+Proof. intro t. unfold harness_executes, gen_current. cbn [h_marked h_filter]. destruct (harness_runs_body t); reflexivity. Qed.
+
+Lemma gen_current_isolated : forall t, isolated gen_current t.
+Proof.
+  intros t u H. rewrite gen_current_executes in H. destruct (harness_runs_body t); [|destruct H].
+  destruct H as [H | []]. symmetry. exact H.
+Qed.
+
+Lemma gen_all_marked_in : forall exact file_tests t u,
+  In u (harness_executes (gen_all_marked exact file_tests t)) <->
+  In u (file_tests t) /\ harness_runs_body u = true /\
+  (if exact then t_name t = t_name u else exists a b, t_name u = a ++ t_name t ++ b).
+Proof.
+  intros exact file_tests t u. unfold harness_executes, gen_all_marked. cbn [h_marked h_filter].
+  rewrite !filter_In. unfold libtest_selects. destruct exact.
+  - rewrite str_eqb_spec. tauto.
+  - rewrite containsb_spec. tauto.
 Qed.
 
 (* ------------------------------------------------------------------------------------------ *)
